@@ -75,6 +75,10 @@ struct GenOpts {
   bool fixedTallOnly = false;
   int rowOrientPattern = -1;  // -1 random
   bool positiveArea = true;   // movable cells have positive width/height
+  bool feasiblePolarity = false;  // only SAME/OPPOSITE polarities, multi-row cells only when enough rows exist
+  int fixedOrder = 0;          // 0 shuffled, 1 fixed cells first, 2 fixed cells last
+  int startMode = 0;           // 0 scattered, 1 all cells at one point, 2 one x column, 3 coarse grid (many ties)
+  int widthMax = 0;            // >0: movable cell widths 1..widthMax (in units of scale)
   bool centredPins = false;   // pin offsets at (or symmetric around) the cell centre
   int rowHeightOverride = 0;  // >0: row height independent of the x scale (very wide rows)
 };
@@ -122,6 +126,7 @@ inline Circuit genCircuit(Rng &rng, const GenOpts &o) {
   int H = (int)(rng.pick(std::vector<int>{1, 2, 3, 4, 5, 8, 10, 12}) * scy);
   int nRowsY = (int)rng.range(1, o.maxRows);
   int Wu = (int)rng.range(6, 60);  // width in units of scale
+  if (o.minCells >= 30) Wu = (int)rng.range(40, 160);
   if (o.minRowWidth4H) Wu = std::max<long long>(Wu, 4LL * (H / sc + 1) + 6 + 8);
   int W = (int)(Wu * sc);
   int x0 = (int)(rng.range(-20, 20) * sc);
@@ -160,6 +165,11 @@ inline Circuit genCircuit(Rng &rng, const GenOpts &o) {
   int nFixed = (int)rng.range(0, o.maxFixed);
   int nMov = (int)rng.range(o.minCells, o.maxCells);
   double util = o.utilLo + (o.utilHi - o.utilLo) * rng.unif();
+  if (o.widthMax > 0) {
+    // crowded profile: the number of cells follows from the target utilisation
+    double avgArea = (1 + o.widthMax) / 2.0 * (double)sc * H;
+    nMov = (int)std::max(1.0, std::min((double)nMov, util * (double)rowArea / avgArea));
+  }
   std::vector<int> w, h, fx, obs, cx, cy;
   std::vector<CellRowPolarity> pol;
   std::vector<CellOrientation> ori;
@@ -168,8 +178,10 @@ inline Circuit genCircuit(Rng &rng, const GenOpts &o) {
   int total = nFixed + nMov;
   std::vector<int> isF(total, 0);
   for (int i = 0; i < nFixed; ++i) isF[i] = 1;
-  for (int i = total - 1; i > 0; --i) std::swap(isF[i], isF[rng.range(0, i)]);
+  if (o.fixedOrder == 0) for (int i = total - 1; i > 0; --i) std::swap(isF[i], isF[rng.range(0, i)]);
+  else if (o.fixedOrder == 2) std::reverse(isF.begin(), isF.end());
   int Hu = H / (int)scy;
+  int stackX = (int)(x0 + rng.range(0, Wu) * sc), stackY = (int)(y0 + rng.range(0, std::max<long long>(1, (yTop - y0) / scy)) * scy);
   for (int i = 0; i < total; ++i) {
     if (isF[i]) {
       int fw = rng.chance(0.15) ? 0 : (int)(rng.range(1, std::max(1, Wu / 3)) * sc);
@@ -186,9 +198,10 @@ inline Circuit genCircuit(Rng &rng, const GenOpts &o) {
       ori.push_back(ALL8[rng.range(0, 7)]);
     } else {
       int nr = 1;
-      if (o.multiRow && rng.chance(o.multiRowProb)) nr = (int)rng.range(2, std::min(4, std::max(2, nRowsY)));
+      if (o.multiRow && rng.chance(o.multiRowProb) && !(o.feasiblePolarity && nRowsY < 2)) nr = (int)rng.range(2, std::min(4, std::max(2, nRowsY)));
       int cw = (int)(rng.range(1, std::max(1, Wu / 4)) * sc);
       if (rng.chance(0.1)) cw = (int)(rng.range(1, std::max(1, Wu / 2)) * sc);
+      if (o.widthMax > 0) cw = (int)(rng.range(1, o.widthMax) * sc);
       // widths that are not multiples of the scale, but never tiny relative to it: the density grid resolution is
       // 5 x the smallest positive stored cell height (a turned cell stores its width there), so a 1-unit cell in a design
       // millions of units wide asks for ~10^10 bins (memory exhaustion, not a property of interest)
@@ -206,7 +219,7 @@ inline Circuit genCircuit(Rng &rng, const GenOpts &o) {
       CellRowPolarity p = CellRowPolarity::ANY;
       if (o.polarity && rng.chance(o.polarityProb)) {
         static const CellRowPolarity pp[4] = {CellRowPolarity::SAME, CellRowPolarity::OPPOSITE, CellRowPolarity::NW, CellRowPolarity::SE};
-        p = pp[rng.range(0, 3)];
+        p = pp[rng.range(0, o.feasiblePolarity ? 1 : 3)];
       }
       CellOrientation oo;
       int sw = cw, sh = ch;  // stored (unrotated) size
@@ -220,7 +233,16 @@ inline Circuit genCircuit(Rng &rng, const GenOpts &o) {
       h.push_back(sh);
       fx.push_back(0);
       obs.push_back(rng.chance(0.8));
-      if (o.farInit && rng.chance(0.1)) {
+      if (o.startMode == 1) {
+        cx.push_back(stackX);
+        cy.push_back(stackY);
+      } else if (o.startMode == 2) {
+        cx.push_back(stackX);
+        cy.push_back((int)(y0 + rng.range(-Hu, (yTop - y0) / scy + Hu) * scy));
+      } else if (o.startMode == 3) {
+        cx.push_back((int)(x0 + rng.range(0, std::max(1, Wu / 8)) * 8 * sc));
+        cy.push_back((int)(y0 + rng.range(0, std::max<long long>(1, (yTop - y0) / scy / 2)) * 2 * scy));
+      } else if (o.farInit && rng.chance(0.1)) {
         cx.push_back((int)(x0 + rng.range(-200, 200) * sc));
         cy.push_back((int)(y0 + rng.range(-200, 200) * scy));
       } else {
@@ -705,6 +727,15 @@ inline GenOpts makeProfile(Rng &rng, const std::string &name) {
     // keep the number of density bins per row in the low thousands (width / (5 x height))
     o.rowHeightOverride = o.scale == 1000 ? (int)rng.pick(std::vector<int>{40, 100}) : o.scale == 10000 ? (int)rng.pick(std::vector<int>{100, 400}) : (int)rng.pick(std::vector<int>{400, 1000});
     o.maxCells = std::min(o.maxCells, 20);
+  } else if (name == "crowded") {
+    // many narrow cells in few rows, many ties in the start positions, fixed cells first or last in the index order
+    o.maxRows = (int)rng.pick(std::vector<int>{1, 2, 3, 5});
+    o.minCells = 30; o.maxCells = (int)rng.pick(std::vector<int>{60, 120, 200});
+    o.widthMax = (int)rng.pick(std::vector<int>{1, 2, 3});
+    o.startMode = (int)rng.range(0, 3);
+    o.fixedOrder = (int)rng.range(0, 2);
+    o.multiRowProb = 0.03; o.polarityProb = rng.chance(0.5) ? 0.0 : 0.5;
+    o.utilLo = 0.3; o.utilHi = 1.0; o.maxNets = 60; o.feasiblePolarity = true; o.maxFixed = 2;
   } else if (name == "floating") {
     // no fixed cells at all: every net is a floating component of the quadratic system; pins at the cell centres
     o.maxFixed = 0; o.centredPins = true; o.maxNets = 8; o.maxCells = std::min(o.maxCells, 12);
